@@ -501,3 +501,41 @@ pub fn process_state_is_alive(s: &ProcessState) -> bool {
 pub fn fd_of(i: i32) -> Fd {
     Fd(i)
 }
+
+/// Stateless depth-first enumeration of schedules by re-execution. `run_with` executes the case
+/// under `Chooser::Exact(prefix)` (beyond the prefix the scheduler picks choice 0). `visit` gets
+/// each result and returns false to stop. Returns (schedules run, whether the space was exhausted).
+pub fn dfs_schedules(
+    budget: usize,
+    mut run_with: impl FnMut(Chooser) -> RunResult,
+    mut visit: impl FnMut(&RunResult, &[u8]) -> bool,
+) -> (usize, bool) {
+    let mut prefix: Vec<u8> = vec![];
+    let mut runs = 0;
+    loop {
+        let r = run_with(Chooser::Exact(prefix.clone()));
+        runs += 1;
+        let taken: Vec<u8> = r.log.choices.iter().map(|c| c.1).collect();
+        if !visit(&r, &taken) {
+            return (runs, false);
+        }
+        // next schedule: bump the last choice that still has an untried alternative
+        let mut next = None;
+        for i in (0..r.log.choices.len()).rev() {
+            let (n, c) = r.log.choices[i];
+            if c + 1 < n {
+                let mut p: Vec<u8> = taken[..i].to_vec();
+                p.push(c + 1);
+                next = Some(p);
+                break;
+            }
+        }
+        match next {
+            None => return (runs, true),
+            Some(p) => prefix = p,
+        }
+        if runs >= budget {
+            return (runs, false);
+        }
+    }
+}
